@@ -59,6 +59,25 @@ theorem run_inv (h : List (Event × Env)) (hlen : h.length + 1 < 2 ^ 64) (hn : n
   obtain ⟨s, hs, h1, _⟩ := inv x k i hm
   exact ⟨s, hs, C04.lookup_some_id _ wf x s hs, h1⟩
 
+/-- **re-association withdraws the rules**: `RemoteNode.Reset` of a node, in a state whose data plane satisfies the invariant:
+    afterwards no rule of any session that was in the node's set is left in the data plane — whatever the order the sessions
+    are closed in, whatever had failed to install earlier (C05 `reset_sweeps`: those SEIDs resolve to nothing; the invariant:
+    every rule belongs to a SEID that resolves) -/
+theorem reassociation_withdraws_rules (st : State) (dp : DP) (h : Nat) (env : Env) (c : Ctx)
+    (wf : C04.TableWF st.lnode) (hroom : st.lnode.sess.length + 1 < 2 ^ 64) (inv : Inv st dp) (hh : h < st.nodes.length)
+    (l : List Out) (hl : (st.resetNode h env c).2.outs = c.outs ++ l) (hn : natural dp l)
+    (x : Seid) (hx : x ∈ (st.nodes.getD h default).sess) : ∀ k i, (x, k, i) ∉ dpRun dp l := by
+  intro k i hm
+  obtain ⟨l0, e0, g, _⟩ := resetNode_good st h env c
+  have hl0 : l0 = l := by
+    have : c.outs ++ l0 = c.outs ++ l := by rw [← e0, hl]
+    exact List.append_cancel_left this
+  subst hl0
+  have inv' := g.2.2 dp wf hroom inv hn
+  obtain ⟨s, hs, _⟩ := inv' x k i hm
+  rw [C05.reset_sweeps st wf h env c hh x hx] at hs
+  cases hs
+
 /-- closing a session withdraws every rule of it, in any removal order, whatever installations had failed -/
 theorem close_withdraws_all (s : Sess) (c : Ctx) :
     ∃ l, (s.close c).2.1.outs = c.outs ++ l ∧
